@@ -9,6 +9,7 @@ use msql_srv::*;
 use mysql_common as myc;
 use std::convert::TryFrom;
 use std::io;
+use std::io::{Read, Write};
 use std::panic::{catch_unwind, AssertUnwindSafe};
 use std::time::Duration;
 
@@ -191,7 +192,7 @@ impl<'a> ToMysqlValue for CellVal<'a> {
     }
 }
 
-fn write_cell(rw: &mut RowWriter<'_, SimStream>, cell: &Cell) -> io::Result<()> {
+fn write_cell<W: Read + Write>(rw: &mut RowWriter<'_, W>, cell: &Cell) -> io::Result<()> {
     macro_rules! f {
         ($v:expr) => {
             rw.write_col($v)
@@ -267,11 +268,11 @@ fn convert_param(coltype: u8, value: msql_srv::Value<'_>) -> Conv {
 }
 
 impl<const D: bool> SimShim<D> {
-    fn run_program(
+    fn run_program<W: Read + Write>(
         &mut self,
         act_idx: usize,
         p: &Program,
-        results: QueryResultWriter<'_, SimStream>,
+        results: QueryResultWriter<'_, W>,
     ) -> Result<(), ShimErr> {
         // all column vectors must outlive the writer chain
         let colsets: Vec<Vec<Column>> = p
@@ -462,7 +463,7 @@ impl<const D: bool> SimShim<D> {
             }
         }
         if let Some((at, tok)) = p.ret_err {
-            if at as usize >= n {
+            if at as usize == n {
                 return Err(ShimErr::Token(tok));
             }
         }
@@ -479,10 +480,10 @@ impl<const D: bool> SimShim<D> {
         Ok(())
     }
 
-    fn do_query(
+    fn do_query<W: Read + Write>(
         &mut self,
         query: &str,
-        results: QueryResultWriter<'_, SimStream>,
+        results: QueryResultWriter<'_, W>,
     ) -> Result<(), ShimErr> {
         let (idx, act) = {
             let mut w = self.w.borrow_mut();
@@ -490,7 +491,15 @@ impl<const D: bool> SimShim<D> {
             w.take_act()
         };
         match act {
-            Act::Program(p) => self.run_program(idx, &p, results),
+            Act::Program(p) => {
+                let r = self.run_program(idx, &p, results);
+                match (r, p.ret_err) {
+                    // "report, then hang up": the response is complete, and the callback still
+                    // returns its own error
+                    (Ok(()), Some((at, tok))) if at as usize > p.units.len() => Err(ShimErr::Token(tok)),
+                    (r, _) => r,
+                }
+            }
             _ => {
                 results.completed(0, 0)?;
                 Ok(())
@@ -498,10 +507,10 @@ impl<const D: bool> SimShim<D> {
         }
     }
 
-    fn do_prepare(
+    fn do_prepare<W: Read + Write>(
         &mut self,
         query: &str,
-        info: StatementMetaWriter<'_, SimStream>,
+        info: StatementMetaWriter<'_, W>,
     ) -> Result<(), ShimErr> {
         let (idx, act) = {
             let mut w = self.w.borrow_mut();
@@ -535,11 +544,11 @@ impl<const D: bool> SimShim<D> {
         }
     }
 
-    fn do_execute(
+    fn do_execute<W: Read + Write>(
         &mut self,
         id: u32,
         params: ParamParser<'_>,
-        results: QueryResultWriter<'_, SimStream>,
+        results: QueryResultWriter<'_, W>,
     ) -> Result<(), ShimErr> {
         let convert = self.w.borrow().convert_params;
         let (pull, skip) = self.w.borrow().peek_pull();
@@ -575,7 +584,15 @@ impl<const D: bool> SimShim<D> {
             w.take_act()
         };
         match act {
-            Act::Program(p) => self.run_program(idx, &p, results),
+            Act::Program(p) => {
+                let r = self.run_program(idx, &p, results);
+                match (r, p.ret_err) {
+                    // "report, then hang up": the response is complete, and the callback still
+                    // returns its own error
+                    (Ok(()), Some((at, tok))) if at as usize > p.units.len() => Err(ShimErr::Token(tok)),
+                    (r, _) => r,
+                }
+            }
             _ => {
                 results.completed(0, 0)?;
                 Ok(())
@@ -587,7 +604,7 @@ impl<const D: bool> SimShim<D> {
         self.w.borrow_mut().log_cb(Cb::Close(stmt));
     }
 
-    fn do_init(&mut self, schema: &str, writer: InitWriter<'_, SimStream>) -> Result<(), ShimErr> {
+    fn do_init<W: Read + Write>(&mut self, schema: &str, writer: InitWriter<'_, W>) -> Result<(), ShimErr> {
         let (idx, act) = {
             let mut w = self.w.borrow_mut();
             w.log_cb(Cb::Init(schema.as_bytes().to_vec()));
@@ -635,12 +652,12 @@ fn clone_res(r: &io::Result<()>) -> io::Result<()> {
 }
 
 macro_rules! common_shim_methods {
-    () => {
+    ($W:ty) => {
         type Error = ShimErr;
         fn on_prepare(
             &mut self,
             query: &str,
-            info: StatementMetaWriter<'_, SimStream>,
+            info: StatementMetaWriter<'_, $W>,
         ) -> Result<(), ShimErr> {
             self.do_prepare(query, info)
         }
@@ -648,7 +665,7 @@ macro_rules! common_shim_methods {
             &mut self,
             id: u32,
             params: ParamParser<'_>,
-            results: QueryResultWriter<'_, SimStream>,
+            results: QueryResultWriter<'_, $W>,
         ) -> Result<(), ShimErr> {
             self.do_execute(id, params, results)
         }
@@ -658,7 +675,7 @@ macro_rules! common_shim_methods {
         fn on_query(
             &mut self,
             query: &str,
-            results: QueryResultWriter<'_, SimStream>,
+            results: QueryResultWriter<'_, $W>,
         ) -> Result<(), ShimErr> {
             self.do_query(query, results)
         }
@@ -672,7 +689,7 @@ macro_rules! common_shim_methods {
 }
 
 impl MysqlShim<SimStream> for SimShim<false> {
-    common_shim_methods!();
+    common_shim_methods!(SimStream);
     fn on_init(&mut self, schema: &str, writer: InitWriter<'_, SimStream>) -> Result<(), ShimErr> {
         self.do_init(schema, writer)
     }
@@ -680,5 +697,13 @@ impl MysqlShim<SimStream> for SimShim<false> {
 
 /// Uses the library's own default `on_init`.
 impl MysqlShim<SimStream> for SimShim<true> {
-    common_shim_methods!();
+    common_shim_methods!(SimStream);
+}
+
+/// The same shim behind the TCP entry point (`run_on_tcp`), for the loopback differential.
+impl MysqlShim<std::net::TcpStream> for SimShim<false> {
+    common_shim_methods!(std::net::TcpStream);
+    fn on_init(&mut self, schema: &str, writer: InitWriter<'_, std::net::TcpStream>) -> Result<(), ShimErr> {
+        self.do_init(schema, writer)
+    }
 }
